@@ -40,6 +40,14 @@ func newConfig(options []Option) *config {
 	return c
 }
 
+// withoutEncode is used by every entry point other than Output*: the encoding options
+// only select an output format and must not replace the grower (branch / path assembly
+// and name validation) by the no-op one.
+func (c *config) withoutEncode() *config {
+	c.encode = encodeDefault
+	return c
+}
+
 // Option is functional options pattern
 type Option func(*config)
 
